@@ -3,7 +3,7 @@ from sa import e1, guards
 from sa.e1 import G, NE, EQ, BodyCtx
 from sa.match import Dim, Base, Arg, Field, Int, Zero, contains
 from sa.mir import AnchorError
-from sa.prov import render, subterms
+from sa.prov import render, subterms, Resolver
 
 LEVEL = "other"
 EXPLANATION = (
@@ -142,3 +142,38 @@ def run(ck, prog):
     from props.C09 import decode_rule, classes_from_unique
     decode_rule(ck, prog, r"^neighbors::knn_classifier::KNNClassifier::<T, D>::predict$", "KNNClassifier::predict stores classes[..]", 1)
     ck.floor("E2a-label-decode", 1)
+
+
+def radius_provenance(ck, prog):
+    """E2g: the covering radius stored in a node is zero (leaf) or derived from the actual distances of the points
+    below it - pruning by `bound + max_dist` is only sound if max_dist bounds those distances"""
+    rule, inst = "E2g-radius", "Node.max_dist is derived from the distances of the covered points"
+    bodies = prog.find(r"^algorithm::neighbour::cover_tree::CoverTree::<T, F, D>::(batch_insert|new_leaf|build_cover_tree|new)$")
+    n = 0
+    for b in sorted(bodies, key=lambda b: b.path):
+        res = Resolver(b)
+        for i, j, s in b.stmts():
+            r = s["r"] if s["k"] == "assign" else None
+            if r and r["k"] == "agg" and r["ak"] == "adt" and r["name"].endswith("cover_tree::Node") and "max_dist" in r["fields"] and not s.get("x"):
+                n += 1
+                v = res.operand(r["ops"][r["fields"].index("max_dist")])
+                from sa.match import Zero
+                dist_dep = any((s2[0] == "call" and s2[1].endswith(("CoverTree::<T, F, D>::max", "Distance::distance")))
+                               or (s2[0] == "field" and s2[2] in ("dist",)) for s2 in subterms(v))
+                if Zero()(v) or dist_dep:
+                    ck.ok(rule, inst, b.path, b.where(i, j), f"max_dist = {render(v)[:60]}")
+                else:
+                    ck.violation(rule, inst, b.path, b.where(i, j), ordinal=n,
+                                 expected="max_dist = 0 for a leaf, otherwise computed from the distances of the points in the subtree",
+                                 found=f"max_dist = `{render(v)[:100]}` does not depend on any measured distance")
+    if n < 3:
+        ck.violation(rule, inst, "cover_tree", "", expected=">= 3 Node constructions", found=f"{n}")
+
+
+_run2 = run
+
+
+def run(ck, prog):
+    _run2(ck, prog)
+    radius_provenance(ck, prog)
+    ck.floor("E2g-radius", 3)
